@@ -184,6 +184,7 @@ func (s *snapshotSink) done(err error) (snapshotMeta, error) {
 	if err = s.file.Close(); err != nil {
 		return s.meta, err
 	}
+	verifPoint(s.snaps, "snap.dataclosed")
 	info, err := os.Stat(s.file.Name())
 	if err != nil {
 		return s.meta, err
@@ -211,11 +212,13 @@ func (s *snapshotSink) done(err error) (snapshotMeta, error) {
 	if err = os.Rename(temp.Name(), file); err != nil {
 		return s.meta, err
 	}
+	verifPoint(s.snaps, "snap.metarenamed")
 	temp = nil
 	s.snaps.mu.Lock()
 	s.snaps.index, s.snaps.term = s.meta.index, s.meta.term
 	s.snaps.mu.Unlock()
 	_ = s.snaps.applyRetain() // todo: trace error
+	verifPoint(s.snaps, "snap.retained")
 	return s.meta, nil
 }
 
